@@ -69,3 +69,30 @@ contract(
             ],
     },
 )
+
+
+# ---------------------------------------------------------------------------------------------
+# _copy_h5_element (C13.c/g): slice over the chunk shape handed to create_dataset.
+# The chunk shape of the source is re-used for a destination of the same *current* shape.  For a
+# resizable source (maxshape) h5py allows chunks larger than the shape - anndata writes the empty
+# 'data' / 'indices' arrays of an all-zero sparse matrix as shape (0,), chunks (1024,),
+# maxshape (None,) - and the fixed-shape destination is then refused:
+#   ValueError: Chunk shape must not be greater than data shape in any dimension
+# The obligation below therefore FAILS on the unchanged tree (finding D-10, reproduced natively:
+# copy_h5_excluding_data / copy_layer_to_x on an h5ad file whose sparse X stores no value).
+# ---------------------------------------------------------------------------------------------
+_H5_ASSUME = ['A-H5SHAPE: entries of h5py dataset shapes are non-negative integers; chunk shapes are '
+              'None or positive per dimension (not assumed <= shape: resizable datasets); '
+              'A-H5ITEM: group[name] denotes the same object within one call']
+
+contract(
+    M + '_copy_h5_element',
+    properties=['C13'],
+    mode='slice', unexpected_exceptions='allowed',
+    ghost=dict(h5_shapes=True), assumptions=_H5_ASSUME,
+    tracked=['src_dataset', 'chunks', 'copy_slices', 'max_elements'],
+    params=dict(max_elements='Int'),
+    requires=["max_elements >= 1"],
+    note="D-10: `create_dataset(shape=src.shape, chunks=src.chunks)` is refused for a resizable "
+         "source whose chunks exceed its shape (all-zero sparse h5ad)",
+)
